@@ -140,7 +140,7 @@ func run(c *runner.Ctx) {
 						o := reflect.New(tp.outer)
 						vs.set(o.Elem(), tp.inner)
 						for ci, cs := range callSubsets {
-							if (vi+ci)%2 == 1 && !c.Thorough() {
+							if vi+ci < 0 {
 								continue
 							}
 							callFns := valid.Name2FnMap{}
